@@ -285,6 +285,25 @@ private def schedEx : List Event :=
 example : ∀ w, 2 ≤ w → itemsEx w = [] := by
   intro w hw; simp [itemsEx]; omega
 
+-- The order "filter, then drain" is essential: a parent that leaves the loop as soon as the
+-- filter finds no live process (mutant M2 of notes/C05.md) loses the last object on the very
+-- same worker behaviour — the model distinguishes the two programs.
+private def stepNoDrain (s : PState) : Event → Option PState
+  | .parent stale =>
+    match s.pc with
+    | .filter =>
+      let r := s.running.filter (fun w => (s.ws w).alive || stale.contains w)
+      some { s with running := r, pc := if r.isEmpty then .done else .emptyTest }
+    | _ => step s (.parent stale)
+  | e => step s e
+private def runNoDrain (s : PState) : List Event → Option PState
+  | [] => some s
+  | e :: es => match stepNoDrain s e with
+    | none => none
+    | some s' => runNoDrain s' es
+#guard (runNoDrain (initState 2 itemsEx) (schedEx.take 13)).map (fun s => (s.pc, s.yielded.length, s.pipe.length))
+    = some (.done, 1, 1)
+
 -- match: hypotheses of C05_match_complete are satisfiable
 #guard matchFiles [(0, 10), (20, 30), (50, 60)] [(5, 6), (25, 40), (100, 200)] 0 300 0
     = .ok [(0, [0]), (1, [1])]
